@@ -222,11 +222,12 @@ def expect_guards(ctx, fn, table, where=None):
     ifs = [s for s in (where if where is not None else ast.walk(fn.node)) if isinstance(s, ast.If)]
     for formula, action, meaning in table:
         ctx.count(1, '%s: %s' % (fn.qual, formula))
-        act = ' '.join(ast.unparse(ast.parse(action)).split())
+        from ..normal import flatten_block
+        act = [' '.join(U(a).split()) for a in flatten_block(ast.parse(action).body)]      # same else-elimination as the analysed tree
         cands = []
         for s in ifs:
             for test, body in if_chain(s):
-                if test is not None and body and ' '.join(U(body[0]).split()) == act:
+                if test is not None and body and [' '.join(U(b).split()) for b in body[:len(act)]] == act:
                     cands.append((s, test))
         if not cands:
             ctx.fail(fn, fn.node, '%s: no branch doing `%s` (%s)' % (fn.qual, action, meaning), stmt='%s lacks: if %s: %s' % (fn.qual, formula, action))
@@ -245,3 +246,15 @@ def expect_guards(ctx, fn, table, where=None):
         if not good:
             s, test, w = bad
             ctx.fail(fn, s, '`%s` is done when `%s`, expected when `%s` (%s)' % (action, U(test), formula, meaning), witness=w, stmt=test)
+
+
+def main_chain(block):
+    """the dispatch chain of a block: the longest if/elif/else chain among its top-level `if`s (after else-elimination a chain of
+    returning branches is a run of sibling ifs, read as one chain from its first member)"""
+    best = None
+    for n in block:
+        if isinstance(n, ast.If):
+            ch = if_chain(n)
+            if best is None or len(ch) > len(best):
+                best = ch
+    return best
